@@ -102,26 +102,32 @@ def gen_pipeline_stages():
     }
     pl = strip_comments(rd("driver/src/pipeline/pipeline.rs"))
     ci = _fn_body(pl, "compile_internal")
-    m = re.search(r"if\s+stage_name\s*==\s*\"([^\"]*)\"\s*\{\s*break\s*;\s*\}", ci)
+    m = re.search(r"if\s+[a-z_.()]+\s*==\s*\"([^\"]*)\"\s*\{\s*break\s*;\s*\}", ci)
     if not m:
         raise ExtractError("pipeline.rs::compile_internal: `if stage_name == \"..\" { break; }` not found")
     brk = m.group(1)
-    ex = _fn_body(pl, "exec")
-    # the cache stores and serves clones
-    for nm, body in (("exec", ex), ("compile_internal", ci)):
-        if not re.search(r"output\s*:\s*output\.clone\(\)", body):
-            raise ExtractError(f"pipeline.rs::{nm}: cache insert no longer stores output.clone()")
-        if not re.search(r"cached\.output\.clone\(\)", body):
-            raise ExtractError(f"pipeline.rs::{nm}: cache hit no longer clones the cached output")
+    # the cache stores and serves clones -- wherever in pipeline.rs that happens (helpers allowed)
+    inserts = [m.start() for m in re.finditer(r"\.cache\s*\.\s*insert\s*\(", pl)]
+    gets = [m.start() for m in re.finditer(r"\.cache\s*\.\s*get\s*\(", pl)]
+    if not inserts or not gets:
+        raise ExtractError("pipeline.rs: cache insert / lookup not found")
+    if len(re.findall(r"output\s*:\s*[a-z_]+\.clone\(\)", pl)) < len(inserts):
+        raise ExtractError("pipeline.rs: a cache insert no longer stores a clone of the output")
+    if not re.search(r"\.output\s*\.clone\(\)", pl):
+        raise ExtractError("pipeline.rs: a cache hit no longer clones the cached output")
     # StageOutput derives Clone and Compiled carries a Heap
     ty = strip_comments(rd("driver/src/pipeline/types.rs"))
-    # is a Compiled output ever put into the cache?  (repair of KF-C16-1/2:
-    # `if stage.cacheable() && output.cacheable()` with StageOutput::cacheable() = !Compiled)
-    sites = [re.findall(r"if\s+stage\.cacheable\(\)\s*(&&\s*output\.cacheable\(\)\s*)?\{\s*self\.cache\.insert", b) for b in (ex, ci)]
-    if any(len(x) != 1 for x in sites):
-        raise ExtractError("pipeline.rs: cache insertion test of unexpected shape")
-    guarded = [bool(x[0]) for x in sites]
-    oc = re.search(r"fn\s+cacheable\s*\(&self\)\s*->\s*bool\s*\{\s*!\s*matches!\(\s*self\s*,\s*StageOutput::Compiled\s*\([^)]*\)\s*\)\s*\}", ty)
+    # is a Compiled output ever put into the cache?  every insert must sit under a test of both
+    # stage.cacheable() and <output>.cacheable(), and StageOutput::cacheable() must exclude Compiled
+    guarded = []
+    for pos in inserts:
+        k = pl.rfind("if ", 0, pos)
+        cond = pl[k:pl.find("{", k)] if k >= 0 else ""
+        if "cacheable()" not in cond:
+            raise ExtractError("pipeline.rs: a cache insertion is not under a cacheable() test")
+        guarded.append(len(re.findall(r"\bcacheable\(\)", cond)) >= 2)
+    oc = re.search(r"fn\s+cacheable\s*\(&self\)\s*->\s*bool\s*\{\s*(?:!\s*matches!\(\s*self\s*,\s*(?:StageOutput|Self)::Compiled\s*\([^)]*\)\s*\)"
+                   r"|match\s+self\s*\{[^}]*Compiled\s*\([^)]*\)\s*=>\s*false[^}]*_\s*=>\s*true[^}]*\})\s*\}", ty)
     if all(guarded) and oc:
         compiled_cached = False
     elif not any(guarded):
